@@ -1,5 +1,6 @@
 import XmlRsModel.XmlDoc
 import XmlRsModel.Lemmas.PegSound
+import XmlRsModel.Thm.C18
 /-! Property C02: ill-formed input is never reported as a completely parsed document.
     Soundness direction: whatever `parseDoc` returns as a document (a) is a derivation of the
     context-free reading of the grammar translated from the Rust source and consumes exactly the text
@@ -43,6 +44,16 @@ theorem complete_parse_is_whole_input (ev : Env) (st : Bool) (s : Str) (d : IDoc
     ∃ c, Derives ev (.nt N.document) (.node N.document c) ∧ c.flatten = s := by
   obtain ⟨c, hd, hf, _, _⟩ := accepted_is_derivable ev st s d [] h
   exact ⟨c, hd, by simpa using hf⟩
+
+/-- the character classes the grammar's terminals test are productions [2] [4] [4a] [13] [81] of the
+    Recommendation for EVERY character (tables extracted from the running code on this run, proved
+    equal in `Thm/C18`): an accepted text can only contain legal characters in legal positions -/
+theorem classes_are_the_recommendation (c : Char) :
+    P.isChar c = Spec.isChar c.toNat ∧ P.isNameStartChar c = Spec.isNameStartChar c.toNat ∧
+    P.isNameChar c = Spec.isNameChar c.toNat ∧ P.isPubidChar c = Spec.isPubidChar c.toNat ∧
+    P.isEncName c = Spec.isEncNameChar c.toNat :=
+  ⟨C18.isChar_spec _, C18.isNameStartChar_spec _, C18.isNameChar_spec _, C18.isPubidChar_spec _,
+   C18.isEncNameChar_spec _⟩
 
 /-! ### (b) constraints beyond the EBNF -/
 
